@@ -40,6 +40,39 @@ Proof.
   destruct (C19_small_ids_faithful t1 ds1 H1 L1) as [_ E1]. destruct (C19_small_ids_faithful t2 ds2 H2 L2) as [_ E2]. lia.
 Qed.
 
+(* (3) contract addresses: every spelling the record message accepts (common.IsHexAddress: 40 hex digits, any
+   casing, with "0x", with "0X" or without prefix) is stored as exactly the number its digits denote, so two accepted
+   spellings are stored identically iff they denote the same address *)
+Theorem C19_contract_faithful : forall s, is_hex_address s = true ->
+  hex_to_address s = hexnum (addr_digits s) /\ 0 <= hexnum (addr_digits s) < two160.
+Proof. exact contract_address_faithful. Qed.
+
+Theorem C19_contract_injective : forall s1 s2, is_hex_address s1 = true -> is_hex_address s2 = true ->
+  (hex_to_address s1 = hex_to_address s2 <-> hexnum (addr_digits s1) = hexnum (addr_digits s2)).
+Proof.
+  intros s1 s2 H1 H2. destruct (contract_address_faithful s1 H1) as [E1 _].
+  destruct (contract_address_faithful s2 H2) as [E2 _]. rewrite E1, E2. tauto.
+Qed.
+
+(* ... and what the chain publishes for it (0x + 40 lower-case digits) denotes the same address again *)
+Theorem C19_contract_published : forall s, is_hex_address s = true ->
+  is_hex_address (addr_hex (hex_to_address s)) = true /\ hex_to_address (addr_hex (hex_to_address s)) = hex_to_address s.
+Proof.
+  intros s H. destruct (contract_address_faithful s H) as [E B]. split.
+  - unfold is_hex_address, addr_hex. replace (has0x (c_0 :: c_x :: hex_digits 40 (hex_to_address s))) with true by reflexivity.
+    cbn [drop2]. fold (all_hex (hex_digits 40 (hex_to_address s))). rewrite all_hex_hex_digits.
+    assert (L : forall n v, length (hex_digits n v) = n).
+    { induction n as [|n IH]; intros v; [reflexivity|]. cbn [hex_digits]. rewrite app_length, IH. simpl. lia. }
+    unfold lenZ. rewrite L. reflexivity.
+  - apply addr_hex_roundtrip. rewrite E. exact B.
+Qed.
+
+Example C19_contract_spellings :
+  is_hex_address (bs "0X00000000000000000000000000000000000000C4"%string) = true /\
+  hex_to_address (bs "0X00000000000000000000000000000000000000C4"%string) = 196 /\
+  hex_to_address (bs "00000000000000000000000000000000000000c4"%string) = 196.
+Proof. vm_compute. repeat split; reflexivity. Qed.
+
 (* (2) refuted beyond 2^160 and for signed ids: different accepted token ids collapse *)
 Theorem C19_refuted :
   exists t1 t2, valid_token_hex t1 = true /\ valid_token_hex t2 = true /\ t1 <> t2 /\
@@ -64,3 +97,6 @@ Proof. repeat split; try (vm_compute; reflexivity). vm_compute. discriminate. Qe
 Print Assumptions C19_small_ids_faithful.
 Print Assumptions C19_small_ids_injective.
 Print Assumptions C19_refuted.
+Print Assumptions C19_contract_faithful.
+Print Assumptions C19_contract_injective.
+Print Assumptions C19_contract_published.
